@@ -226,7 +226,10 @@ def analyze(template: BoundTemplate, *, include_partials: bool) -> TemplateAnaly
                     child,
                     partial_name,
                     partial_scope,
-                    just_globals=just_globals or _just_globals,
+                    # A named partial that has not been seen before is visited in
+                    # full, even while revisiting its parent for globals only.
+                    just_globals=_just_globals
+                    or (just_globals and not partial.name),
                 )
 
             partial_scope.pop()
@@ -347,7 +350,10 @@ async def analyze_async(
                     child,
                     partial_name,
                     partial_scope,
-                    just_globals=just_globals or _just_globals,
+                    # A named partial that has not been seen before is visited in
+                    # full, even while revisiting its parent for globals only.
+                    just_globals=_just_globals
+                    or (just_globals and not partial.name),
                 )
 
             partial_scope.pop()
